@@ -456,6 +456,15 @@ def seeds():
     out.append({'kind': 'eval', 'heap': [[1, 2]], 'ctx': [['a', 1], ['lst', {'ref': 0}]], 'pkg': R4,
                 'imports': [['fromn', R4, [['other', 'oth'], ['sub', 'sb'], ['ONLY', 'ONLY'], ['TOP', 'T']]]],
                 'exprs': [['bin', 'add', N('ONLY'), N('a')], N('T'), ['attr', N('oth'), 'NAME'], ['attr', N('sb'), 'SUBC']]})
+    # an import hidden by a context key at pyimport time is readable once the key is gone
+    out.append({'kind': 'eval', 'heap': [[1, 2]], 'ctx': [['gcd', 5], ['lst', {'ref': 0}]],
+                'imports': [['from', 'math', 'gcd', 'gcd']],
+                'exprs': [N('gcd'), ['call', N('gcd'), [['int', 4], ['int', 6]]], ['lam', [], ['call', N('gcd'), [['int', 4], ['int', 6]]], []],
+                          ['comp', ['call', N('gcd'), [N('x'), ['int', 4]]], [['x', N('lst')]]]],
+                'steps': [['import', [['from', 'math', 'gcd', 'gcd']]], ['eval', N('gcd')], ['drop', 'gcd'],
+                          ['eval', ['call', N('gcd'), [['int', 4], ['int', 6]]]],
+                          ['eval', ['lam', [], ['call', N('gcd'), [['int', 4], ['int', 6]]], []]],
+                          ['eval', ['comp', ['call', N('gcd'), [N('x'), ['int', 4]]], [['x', N('lst')]]]]]})
     # a second pyimport step re-binds an imported name: reads before and after, at every depth
     Q = 'c14pkg_seed02'
     out.append({'kind': 'eval', 'heap': [[1, 2]], 'ctx': [['a', 1], ['lst', {'ref': 0}]], 'pkg': Q,
@@ -592,9 +601,64 @@ def L_binding(block):
          or L.stmt_binding_name(s).startswith('c14pkg_')][0]
 
 
+def gen_hidden_import_case(rng):
+    """a pyimport binds a name that is a context key at that moment; later the key goes away and !py
+    strings read the name (module level, lambda, comprehension, dotted path)"""
+    import c14_lang as L
+    heap, ctx, types = gen_context(rng)
+    P = new_pkg(rng)
+    sim = ModSim(P)
+    forms = import_forms(P)
+    stmt = list(rng.choice(forms))
+    names = L.stmt_binding_names(stmt)
+    k = rng.choice(names)
+    if k not in types:
+        v = gen_scalar(rng, rng.choice(['int', 'str', 'none', 'bool']))
+        ctx.insert(rng.randrange(len(ctx) + 1), [k, v])
+        types[k] = 'int' if isinstance(v, int) and not isinstance(v, bool) else 'any'
+    block = [stmt]
+    if rng.random() < 0.4:
+        block.insert(rng.randrange(2), list(rng.choice(forms)))
+    genv = {}
+    g = Gen(rng, genv, sim=sim)
+    bound = {}
+    for st in block:
+        for n, t in sim.bind_all(st):
+            bound[n] = t
+    steps, exprs = [['import', block]], []
+
+    def ev(e):
+        steps.append(['eval', e])
+        exprs.append(e)
+    genv.update(bound)
+    genv.update(types)
+    for _ in range(rng.choice([0, 1, 1])):
+        ev(read_forms(rng, g, k, types[k]) if rng.random() < 0.6 else g.expr('any', 2, Scope()))
+    steps.append(['drop', k])
+    types.pop(k)
+    genv.clear()
+    genv.update(bound)
+    genv.update(types)
+    for _ in range(rng.choice([1, 2, 2, 3])):
+        ev(read_forms(rng, g, k, bound.get(k)) if rng.random() < 0.75 else g.expr('any', rng.choice([1, 2, 3]), Scope()))
+    if rng.random() < 0.25:
+        steps.append(['import', [list(rng.choice(forms))]])
+        for n, t in sim.bind_all(steps[-1][1][0]):
+            genv.setdefault(n, t)
+        ev(read_forms(rng, g, k, bound.get(k)))
+    imports = [x for st in steps if st[0] == 'import' for x in st[1]]
+    case = {'kind': 'eval', 'heap': heap, 'ctx': ctx, 'imports': imports, 'exprs': exprs, 'steps': steps}
+    if mentions_pkg(imports, P):
+        case['pkg'] = P
+    return case
+
+
 def gen_eval_case(rng):
-    if rng.random() < 0.18:
+    r = rng.random()
+    if r < 0.16:
         return gen_session_case(rng)
+    if r < 0.28:
+        return gen_hidden_import_case(rng)
     heap, ctx, types = gen_context(rng)
     P = new_pkg(rng)
     sim = ModSim(P)
